@@ -182,6 +182,22 @@ def _acc(name):
             return qr.SpectralDensity(ta, dict(ftype="OverdampedBrownian", reorg=v,
                                                cortime=50.0, T=300.0))
         return (sup, lambda o: float(o.get_reorganization_energy()), lambda o: float(o.lamb))
+    if name in ("corfce_sum_reorg", "spectdens_sum_reorg"):
+        # the binary + of two bath functions executed INSIDE the supplying context: the sum holds
+        # the supplied total (two parts 1/4 + 3/4; under wavelength units two functions of twice
+        # the wavelength, i.e. half the energy each)
+        cls = qr.CorrelationFunction if name.startswith("corfce") else qr.SpectralDensity
+
+        def sup(v, _cls=cls):
+            ta = qr.TimeAxis(0.0, 20, 1.0)
+            if _mgr().get_current_units("energy") == "nm":
+                parts = (2.0 * v, 2.0 * v)
+            else:
+                parts = (0.25 * v, 0.75 * v)
+            fs = [_cls(ta, dict(ftype="OverdampedBrownian", reorg=x, cortime=c, T=300.0))
+                  for x, c in zip(parts, (50.0, 80.0))]
+            return fs[0] + fs[1]
+        return (sup, lambda o: float(o.get_reorganization_energy()), lambda o: float(o.lamb))
     if name in ("state_energy", "state_vibenergy", "vibronic_state_energy"):
         # energy of an aggregate state with vibrational quanta: the mode frequency v is supplied
         # under the supplying units, the electronic energy is 9 x that (set in internal units),
@@ -252,10 +268,23 @@ ACCESSORS = ["hamiltonian", "molecule_init", "molecule_set", "mode_init", "mode_
              "aggregate_coupling_matrix_array", "hamiltonian_first_read_in_eigenbasis",
              "state_energy", "state_vibenergy", "vibronic_state_energy", "corfce_values_reorg",
              "corfce_values_reorg_composed", "hamiltonian_rwa_skeleton",
+             "corfce_sum_reorg", "spectdens_sum_reorg",
              "aggregate_electronic_hamiltonian"]
 POSITIVE_ONLY = {"hamiltonian_cutoff_remove", "corfce_reorg", "spectdens_reorg", "mode_init", "mode_set", "submode", "molecule_rwa",
                  "frequency_axis_step", "state_energy", "state_vibenergy", "vibronic_state_energy",
-                 "corfce_values_reorg", "corfce_values_reorg_composed"}
+                 "corfce_values_reorg", "corfce_values_reorg_composed",
+                 "corfce_sum_reorg", "spectdens_sum_reorg"}
+# further unit-managed getters of the objects an accessor builds (derived quantities: no supplied
+# value to compare with, but what is read under one units context is the exact conversion of what
+# is read under another)
+DERIVED = {
+    "corfce_reorg": [("measure_reorganization_energy",
+                      lambda o: float(o.measure_reorganization_energy()))],
+    "spectdens_reorg": [("measure_reorganization_energy",
+                         lambda o: float(o.measure_reorganization_energy()))],
+    "corfce_sum_reorg": [("measure_reorganization_energy",
+                          lambda o: float(o.measure_reorganization_energy()))],
+}
 
 
 def _rel(a, b):
@@ -327,6 +356,20 @@ def eval_pair(case):
             if _rel(back, v) > TOL_ALG * 10:
                 viol.append(("roundtrip/" + tag, "supplied %g read back %r under the same units"
                              % (v, back), None))
+        for dname, reader in DERIVED.get(acc, ()):
+            with qr.energy_units("int"):
+                r0 = reader(obj)
+            with qr.energy_units(u2):
+                r2 = reader(obj)
+            with qr.energy_units(u1):
+                r1 = reader(obj)
+            for u, r in ((u2, r2), (u1, r1)):
+                if not (r0 > 0) or _rel(r, UT.from_internal(r0, u)) > TOL_TABLE:
+                    viol.append(("derived-getter-not-converted/%s.%s/%s" % (acc, dname, u),
+                                 "%s read %r under internal units and %r under %s (exact "
+                                 "conversion %r)" % (dname, r0, r, u, UT.from_internal(r0, u)
+                                                     if r0 > 0 else None), None))
+                    break
         outcome = [round(stored, 9), None if got is None else round(got, 6)]
     if dict(m.current_units) != units0:
         viol.append(("units-not-restored/" + acc, "%r" % (m.current_units,), None))
